@@ -43,8 +43,38 @@ fn check_case(signed: bool, n: u32, raw: u16) -> Option<String> {
     }
 }
 
+/// (statement with a hole, field width, signed)
+const TOKEN_FIELDS: [(&str, u32, bool); 7] = [("ADD R0, R0, #{}", 5, true), ("LDR R0, R1, #{}", 6, true), ("LD R0, #{}", 9, true), ("BRnzp #{}", 9, true), ("JSR #{}", 11, true), ("TRAP #{}", 8, false), (".orig #{}", 16, false)];
+fn check_token(k: usize, v: i64) -> Option<String> {
+    use lc3_ensemble::ast::asm::{AsmInstr, Directive, StmtKind};
+    use lc3_ensemble::ast::{ImmOrReg, PCOffset};
+    let (tpl, n, signed) = TOKEN_FIELDS[k];
+    let src = tpl.replace("{}", &v.to_string());
+    let ok = if signed { v >= -(1i64 << (n - 1)) && v < (1i64 << (n - 1)) } else { v >= 0 && v < (1i64 << n) };
+    let got = match catch(|| lc3_ensemble::parse::parse_ast(&src)) { Err(p) => return Some(format!("`{src}`: parsing panicked: {p}")), Ok(r) => r };
+    let held: Option<i64> = match got {
+        Err(_) => None,
+        Ok(ast) => match ast.first().map(|s| &s.nucleus) {
+            Some(StmtKind::Instr(AsmInstr::ADD(_, _, ImmOrReg::Imm(i)))) => Some(i.get() as i64),
+            Some(StmtKind::Instr(AsmInstr::LDR(_, _, o))) => Some(o.get() as i64),
+            Some(StmtKind::Instr(AsmInstr::LD(_, PCOffset::Offset(o)))) => Some(o.get() as i64),
+            Some(StmtKind::Instr(AsmInstr::BR(_, PCOffset::Offset(o)))) => Some(o.get() as i64),
+            Some(StmtKind::Instr(AsmInstr::JSR(PCOffset::Offset(o)))) => Some(o.get() as i64),
+            Some(StmtKind::Instr(AsmInstr::TRAP(t))) => Some(t.get() as i64),
+            Some(StmtKind::Directive(Directive::Orig(o))) => Some(o.get() as i64),
+            other => return Some(format!("`{src}` parsed as {other:?}")),
+        },
+    };
+    match (ok, held) {
+        (true, Some(h)) if h == v => None,
+        (false, None) => None,
+        (true, Some(h)) => Some(format!("`{src}`: {v} is representable in {n} bits, the {n}-bit offset created from the token holds {h}")),
+        (true, None) => Some(format!("`{src}`: {v} is representable in {n} bits ({}), but creating the offset from the token failed", if signed { "two's complement" } else { "plain binary" })),
+        (false, Some(h)) => Some(format!("`{src}`: {v} is not representable in {n} bits ({}), yet an offset was created holding {h}", if signed { "two's complement" } else { "plain binary" })),
+    }
+}
 pub fn run(ctx: &Ctx) -> Report {
-    let mut rep = Report::new("every (signedness, N in 1..=16, 16-bit value) triple; each evaluates new and new_trunc; non-trivial = value within one of a representability boundary of N bits");
+    let mut rep = Report::new("every (signedness, N in 1..=16, 16-bit value) triple; each evaluates new and new_trunc; plus creation from a source token: every decimal literal -32768..=65535 in 7 instruction/directive fields (5, 6, 9, 9, 11 bits signed; 8 and 16 bits unsigned); non-trivial = value within one of a representability boundary of N bits");
     let total = 2u64 * 16 * 65536;
     let r = sweep(ctx, total, 8192, |i, acc| {
         let signed = i / (16 * 65536) == 0;
@@ -61,12 +91,22 @@ pub fn run(ctx: &Ctx) -> Report {
         }
     });
     rep.absorb(r);
+    // third creation path: an offset created from a numeric source token (the parser's constructor, which takes the token's i16 or u16 value):
+    // every value -32768..=65535 written as a decimal literal in every field of the instruction set
+    let nv = 98304u64;
+    let r = sweep(ctx, TOKEN_FIELDS.len() as u64 * nv, 4096, |i, acc| {
+        let (k, v) = ((i / nv) as usize, (i % nv) as i64 - 32768);
+        acc.evals += 1; acc.transitions += 1; acc.count("created_from_source_tokens", 1);
+        if let Some(d) = check_token(k, v) { acc.violation(format!("offset-from-token:{}", TOKEN_FIELDS[k].0.split(' ').next().unwrap_or("")), format!("t:{k}:{v}"), d); }
+    });
+    rep.absorb(r);
     rep.bound("N", Json::s("1..=16")); rep.bound("values", Json::s("all 65536 per signedness"));
     rep.require(rep.acc.outcomes.len() >= 60, "both acceptance and rejection seen for N<16");
     rep
 }
 pub fn replay(case: &str) -> Option<String> {
     let p: Vec<&str> = case.split(':').collect();
+    if p[0] == "t" { return check_token(p.get(1)?.parse().ok()?, p.get(2)?.parse().ok()?); }
     let n: u32 = p.get(1)?.parse().ok()?;
     let raw: u16 = p.get(2)?.parse().ok()?;
     check_case(p[0] == "i", n, raw)
